@@ -69,7 +69,17 @@ pub fn text_catalogue(w: &World, only: Option<u16>, cx: &mut Ctx) -> R {
     }
     let m = &w.model;
     for shredder in [false, true] {
-        let applicable = shredder || m.plain_expressible();
+        let mut applicable = shredder || m.plain_expressible();
+        if applicable && cx.prop == Prop::C08 {
+            // "a single field of an otherwise valid record": the premise needs the undamaged record to
+            // be valid for the entry points used (a board the builder handed out may have none)
+            let rec = m.to_fen(shredder);
+            let e = if shredder { Entry::Sfen } else { Entry::Fen };
+            if !matches!(parse_via(&rec, e), Ok(Ok(_))) || !matches!(parse_via(&rec, Entry::FromStr), Ok(Ok(_))) {
+                cx.hit("catalogue_skipped_undamaged_record_not_accepted");
+                applicable = false;
+            }
+        }
         let cases = if applicable { text_cases(m, shredder) } else { vec![] };
         // operator indices: plain block from 0, Shredder block from 1000
         let idx: u16 = if shredder { 1000 } else { 0 };
